@@ -211,6 +211,12 @@ def run_impl(cfg, events, ops, trace=False, payload_type=bytes, keymode="script"
     _core.time = ft
     outs = []
     _FRAMES.pop(id(ws), None)
+    # a TLS-like transport: some reads first report a record that has only partly arrived (SSLWantReadError); the library
+    # waits for readability and reads again — the wait is answered "readable" at once (implementation side only: the
+    # model sees the same chunks without the interruptions)
+    _sel_cm = simnet.writable_selector() if any(e[0] == "wantread" for e in events) else None
+    if _sel_cm is not None:
+        _sel_cm.__enter__()
     try:
         for op in ops:
             before = len(sock.sent)
@@ -311,6 +317,8 @@ def run_impl(cfg, events, ops, trace=False, payload_type=bytes, keymode="script"
             outs.append(f"{res}|{int(bool(ws.connected))}{int(ws.sock is not None)}{int(sock.closed)}|"
                         f"{sock.calls}|{sock.clock}|{summarize(delta)}")
     finally:
+        if _sel_cm is not None:
+            _sel_cm.__exit__(None, None, None)
         _core.time = old_time
         os.urandom = old_urandom
         websocket._logging._traceEnabled = False
